@@ -1229,6 +1229,26 @@ def _region_bounds(body, start_rx, end_rx, kv=None):
         raise SliceError('body=1: unbalanced block')
     if kv.get('stmts'):
         # N complete statements starting at the line of the start anchor; stops early at the end of the enclosing block.
+        # skip=K: the region starts AFTER the first K statements (the anchor names a stable statement BEFORE the region,
+        # e.g. a loop head, when the region's own first statement is one a change may rewrite)
+        if kv.get('skip'):
+            k = int(kv['skip'])
+            cnt = 0
+            toks0 = [(t, d) for t, d in _depth_scan(body[s:])]
+            for idx, (t, d) in enumerate(toks0):
+                if d < 0:
+                    raise SliceError('skip: the enclosing block ends before the skipped statements do')
+                nxt = toks0[idx + 1][0] if idx + 1 < len(toks0) else None
+                if d == 0 and t.kind == 'punct' and t.text == ';':
+                    cnt += 1
+                elif d == 0 and t.kind == 'punct' and t.text == '}':
+                    if nxt is None or not (nxt.text in ('else', '.', '?', ';', ')', ',', '=', 'in')):
+                        cnt += 1
+                if cnt >= k:
+                    s = s + t.e
+                    break
+            else:
+                raise SliceError('skip: not enough statements after the anchor')
         n = int(kv['stmts'])
         toks = [(t, d) for t, d in _depth_scan(body[s:])]
         count = 0
